@@ -1,4 +1,4 @@
-\* M+G (quick, exhaustive, flat): every struct / packed struct / union of <= 3 members over the size classes 1, 2, 8, pointer and a byte string; scalars and arrays of 3; both pointer sizes. Invariants of the model are checked on every case and every case is emitted for replay.
+\* M+G (quick, 1 case in 4 of the exhaustive enumeration - residue class chosen by the seed, flat): every struct / packed struct / union of <= 3 members over the size classes 1, 2, 8, pointer and a byte string; scalars and arrays of 3; both pointer sizes. Invariants of the model are checked on every case and every case is emitted for replay.
 CONSTANTS
   RawT = {"B", "h", "q", "P", "s"}
   ArrN = {3}
@@ -14,6 +14,7 @@ CONSTANTS
   BitSplits <- BitSplitsNone
   PS = {32, 64}
   VCs = {"pat"}
+  Stride = 4
   Dev = {}
   Mode = "gen"
 INIT Init
